@@ -452,12 +452,14 @@ def write_evidence(prop, tier, seed, level, coverage, assumptions, wall, violati
 # DeltioActors model-checking runs
 # --------------------------------------------------------------------------------------
 REPAIRED = dict(DeleteDrainsMailbox=True, ClosedMeansNotFound=True, PullWatchesDeleted=True, AttachDetached=True,
+                PullHandsOnWakeup=True,
                 NoRenotifyAfterPartialPull=False, SignalCreatedAfterPull=False, PostDoesNotNotify=False)
 
 
 def actors_mc(workdir, name, procs, subs=("s1",), cap=2, switches=None, invariants=(), allow_cancel=(),
               init_attached=("s1",), backlog=0, max_expire=1, workers=8, timeout=900, properties=()):
     """procs: dict process id -> (kind, target subscription). Returns dict(stats, error, out)."""
+    workdir = os.path.abspath(workdir)
     os.makedirs(workdir, exist_ok=True)
     mod = "MCA_" + name
     kinds = " [] ".join('p = "%s" -> "%s"' % (p, k) for p, (k, _) in procs.items())
